@@ -4,7 +4,7 @@ import random
 import types
 
 from .. import tlc
-from ..core import MachineryError
+from ..core import MachineryError, pmap
 
 NAMES = ("x", "y")
 INIT = {"x": 10, "y": 20}
@@ -111,6 +111,10 @@ def finding_family(rec):
     return sorted(fam)[0] if fam else ""
 
 
+def _one(rec):
+    return run_program(render(rec))
+
+
 def main(run):
     rng = random.Random(run.seed)
     q = run.quick
@@ -124,7 +128,7 @@ def main(run):
     rows = r.ex("PROG")
     run.log(f"TLC: {len(rows)} specified programs")
     rows.sort(key=lambda x: json.dumps(x, sort_keys=True))
-    cap = 8000 if q else 400000
+    cap = 18000 if q else 400000
     if len(rows) > cap:
         short = [x for x in rows if len(x["ks"]) <= 2]
         rest = [x for x in rows if len(x["ks"]) > 2]
@@ -135,9 +139,8 @@ def main(run):
         rng.shuffle(other)
         rows = short + decl[:int((cap - len(short)) * 0.85)] + other[:int((cap - len(short)) * 0.15)]
     outcomes = {"ok": 0, "syntax": 0}
-    for rec in rows:
+    for rec, got in zip(rows, pmap(_one, rows)):
         text = render(rec)
-        got = run_program(text)
         want = expected(rec)
         key = shape_key(rec)
         run.case(key)
